@@ -208,6 +208,10 @@ def boundary_hash(rng, pos, val):
 
 # ---------------------------------------------------------------------------------------------
 
+FMT_SPECS = ["plain", "prec8", "prec0", "prec64", "prec100", "w80", "w70r", "w70l", "w66c", "w70fill", "w08", "w100zero", "alt", "plus",
+             "argw", "argp", "tostring"]
+
+
 def lines_for_c14(rng, n):
     """op lines; the exhaustive blocks are always present, random ops fill up to `n` lines"""
     ops = []
@@ -238,6 +242,10 @@ def lines_for_c14(rng, n):
         add("E dbg " + hx(bytes([v]) * 32))
     for _ in range(20):
         add("E dbg " + hx(rand_hash(rng)))
+    # Display under every formatter setting the harness knows: still exactly the 64 digits
+    for spec in FMT_SPECS:
+        for hh in (rand_hash(rng), bytes(32), bytes([0xff]) * 32):
+            add(f"E fmt {spec} " + hx(hh))
     # malformed register arguments are refused by both drivers
     add("E tohex " + hx(bytes(31)))
     add("E tohex " + hx(bytes(33)))
